@@ -214,7 +214,10 @@ def apply_edit(kind, obj, rng):
             return None
         new = np.array(arr, copy=True)
         i, j = rng.randrange(new.shape[0]), rng.randrange(new.shape[1])
-        new[i, j] = None if (new[i, j] is not None and r < 0.4) else A.f32([A.gen_f32(rng) for _ in range(2 * rng.choice([1, 2, 3]))]).reshape(-1, 2)
+        k = rng.choice([1, 2, 3])
+        pts = (np.array([[_fin(rng), _fin(rng)] for _ in range(k)], dtype="<f4") if FAR[0]        # (far beyond any tolerance from what was there)
+               else A.f32([A.gen_f32(rng) for _ in range(2 * k)]).reshape(-1, 2))
+        new[i, j] = None if (new[i, j] is not None and r < 0.4) else pts
         obj.data = new
         return f"cell ({i},{j}) replaced"
     return None
